@@ -28,10 +28,10 @@ LIMIT = 120
 CAP = 1200
 RULE = ('random programs with conjunction, disjunction, if-then-else, \\+, cut, call/N, once/1, findall/3, = and \\= whose fact predicates '
         '(arity 0-3; rows with atoms, numbers, compound terms, lists, repeated and anonymous variables; 0-4 rows) are replaced, for '
-        'several subsets per program including all and none, by Python generator functions registered with register_function in the '
+        'several subsets per program including all, by Python generator functions registered with register_function in the '
         'three styles (arity inferred from the signature, explicit arity, variadic), yielding False / True / mixed, written with '
         'unify_arrays or nested unify loops; dynamic facts asserted next to compiled and Python predicates and for predicates of '
-        'their own; queries on the rules and directly on the replaced predicates with unbound / partially bound / aliased arguments. '
+        'their own; a first round of queries before all predicates are registered, or with first versions that are re-registered afterwards; queries on the rules and directly on the replaced predicates with unbound / partially bound / aliased arguments. '
         'Compared: canonical answers, their number and how the enumeration ended between engine with Python predicates, engine with '
         'everything compiled, and the Coq model of both; values yielded at the top level; for a function that raises instead of its '
         'j-th answer: answers delivered before, exception class and object identity, no binding left.  Non-trivial: a replaced '
@@ -196,9 +196,11 @@ def impl(case):
         for name, ts in case['dyn']:
             yp.assert_fact(yp.atom(name), build_fact(yp, ts))
         log = []
-        def register(i):
+        def register(i, decoy=False):
             spec = case['native'][i]
             rows = [row_terms(r) for r in facts.get((spec['name'], spec['arity']), [])]
+            if decoy:
+                rows = rows[:1]      # a first version of the predicate that knows only its first row; replaced later
             f, ar = make_native(yp, E, spec, rows, exc_obj[i], log)
             if ar is None:
                 yp.register_function(spec['name'], f)
@@ -209,10 +211,10 @@ def impl(case):
             if pre is not None:
                 # a first round of queries while only some (or none) of the Python predicates are registered
                 for i in pre:
-                    register(i)
+                    register(i, decoy=bool(case.get('decoy')))
                 res['A0'] = run_queries(yp, E, case, exc_obj)
             for i in range(len(case['native'])):
-                if pre is None or i not in pre:
+                if pre is None or i not in pre or case.get('decoy'):
                     register(i)
         res[which] = run_queries(yp, E, case, exc_obj)
         if which == 'A':
@@ -229,13 +231,15 @@ def g_frow(ts, nv):
 def model_expr(case):
     if case.get('pre') is None:
         return '(OL [%s])' % model_expr_phase(case, case['native'])
-    return '(OL [%s; %s])' % (model_expr_phase(case, [case['native'][i] for i in case['pre']]), model_expr_phase(case, case['native']))
+    return '(OL [%s; %s])' % (model_expr_phase(case, [case['native'][i] for i in case['pre']], bool(case.get('decoy'))), model_expr_phase(case, case['native']))
 
-def g_natives(case, natives):
+def g_natives(case, natives, decoy=False):
     facts = fact_preds(numbered(case))
     nats = []
     for spec in natives:
         rows = [row_terms(r) for r in facts.get((spec['name'], spec['arity']), [])]
+        if decoy:
+            rows = rows[:1]
         vals = [{'false': False, 'true': True, 'mixed': i % 2 == 1}[spec['yield']] for i in range(len(rows))]
         style = 'NVariadic' if spec['style'] == 'variadic' else '(NFixed %s)' % g_nat(spec['arity'])
         nats.append('{| n_name := %s; n_style := %s; n_rows := %s; n_vals := %s; n_raise := %s |}' % (
@@ -250,7 +254,7 @@ def g_dyn(dynl):
         dyn.setdefault((name, len(ts)), []).append(g_frow(ts, nv))
     return g_list(['(%s, %s, %s)' % (g_str(k[0]), g_nat(k[1]), g_list(v)) for k, v in dyn.items()])
 
-def model_expr_phase(case, natives):
+def model_expr_phase(case, natives, decoy=False):
     num = numbered(case)
     p_full = ast_io.g_program(num)
     p_rest = ast_io.g_program(progs.number_anons(rest_clauses(case)))
@@ -258,7 +262,7 @@ def model_expr_phase(case, natives):
     for q in case['queries']:
         args, nq = semcheck.query_terms(q)
         qs.append('(%s, %s, %s)' % (g_str(q[0]), g_list([g_term(a) for a in args]), g_nat(nq)))
-    return '(run_native %d %s %s %s %s %s %d)' % (DEPTH, p_rest, p_full, g_natives(case, natives), g_dyn(case['dyn']), g_list(qs), LIMIT)
+    return '(run_native %d %s %s %s %s %s %d)' % (DEPTH, p_rest, p_full, g_natives(case, natives, decoy), g_dyn(case['dyn']), g_list(qs), LIMIT)
 
 def view(m):
     """m[2]: how the model's enumeration ended: ['none'] | ['depth'] | ['unify'] | ['goal'] | ['code'] | ['py', i] (the object raised by Python predicate i)"""
@@ -513,6 +517,8 @@ def gen(rng, tier):
             if rng.random() < 0.45:
                 # queries are also asked before all Python predicates are registered (none, or some of them)
                 c['pre'] = [i for i in range(len(s)) if rng.random() < 0.35]
+                # ... or some are first registered in a version that knows only its first row and are replaced afterwards
+                c['decoy'] = rng.random() < 0.4
             cases.append(c)
         if rng.random() < 0.6:
             s = subsets[-1]
@@ -574,7 +580,7 @@ def nontrivial(case, io):
     return bool(big) and bool(cs & {'cut', 'not', 'if', 'call:call', 'call:once', 'call:findall'})
 
 def distribution(cases, obs):
-    d = {'style': {}, 'yield': {}, 'form': {}, 'natives_per_case': {}, 'queried_before_registration': sum(1 for c in cases if c.get('pre') is not None), 'raising': 0, 'with_dynamic_facts': 0, 'ends_A': {},
+    d = {'style': {}, 'yield': {}, 'form': {}, 'natives_per_case': {}, 'queried_before_registration': sum(1 for c in cases if c.get('pre') is not None), 're_registered': sum(1 for c in cases if c.get('decoy') and c.get('pre')), 'raising': 0, 'with_dynamic_facts': 0, 'ends_A': {},
          'python_predicate_calls': 0, 'constructs': {}}
     for c, o in zip(cases, obs):
         for s in c['native']:
